@@ -1029,6 +1029,9 @@ def dm_apply(d, op):
         return d.take_dists(list(op[1]), negate=True)
     if k == "drop_invalid":
         return d.drop_invalid()
+    if k == "set":                       # a single-cell edit: the matrix is no longer symmetric
+        d[op[1], op[2]] = op[3]
+        return d
     raise ValueError(op)
 
 
@@ -1065,7 +1068,8 @@ def gen_tabular(tier, seed):
                 yield ["dictarray", did, ch, how]
     for did, d in DISTS.items():
         names = sorted({n for k in d for n in k})
-        ops = [["take", names[:2]], ["take", names[::-1]], ["take_neg", names[:1]], ["drop_invalid"]]
+        ops = [["take", names[:2]], ["take", names[::-1]], ["take_neg", names[:1]], ["drop_invalid"],
+               ["set", names[-1], names[0], 9.5]]
         chains = [[]] + [[o] for o in ops] + [[o1, o2] for o1 in ops for o2 in ops]
         for ch in chains:
             for how in CHANNELS:
@@ -1993,7 +1997,7 @@ BOUNDED = {
                  "with_new_column, with_new_header, transposed, appended, title/legend/space/format/index_name setters, "
                  "format_column, column assignment; 9 DictArrays (1-3 dimensions, str/int keys, int/float/bool, empty) x "
                  "row/column selection, to_normalized, row_sum, col_sum depth <= 2; 4 DistanceMatrices (incl. nan, names with "
-                 "space) x take_dists, negate, drop_invalid depth <= 2; x channels json, rich, pickle",
+                 "space) x take_dists, negate, drop_invalid, single-cell edit (asymmetric matrix) depth <= 2; x channels json, rich, pickle",
         "rule": "a case = (kind, base object, history, channel); non-trivial when no dimension is empty; distinct by hash",
     },
     "alpha": {
